@@ -57,7 +57,7 @@ pub struct ImplDir {
     pub header: Option<String>,
     pub keep_types: bool,
     pub fns: Vec<FnDirective>,
-    pub consts: Vec<String>,
+    pub consts: Vec<(String, Vec<String>)>,
 }
 
 pub enum Segment {
@@ -294,7 +294,14 @@ pub fn parse_template(tpl: &str) -> Unit {
                         "endimpl" => break,
                         "header" => imd.header = Some(r.to_string()),
                         "keep-types" => imd.keep_types = true,
-                        "const" => imd.consts.push(r.to_string()),
+                        "const" => {
+                            let mut sp = vec![];
+                            while i < lines.len() && lines[i].trim_start().starts_with("//@|") {
+                                sp.push(lines[i].trim_start()[4..].trim_end_matches('\n').to_string());
+                                i += 1;
+                            }
+                            imd.consts.push((r.to_string(), sp));
+                        }
                         "fn" => {
                             let blk = gather(&mut i, &lines);
                             imd.fns.push(parse_fn_block(r, &blk));
